@@ -199,7 +199,8 @@ def execute(chunk):
                     for h in hist:
                         dh = xc.make_data(h['dseed'], h['n'], p['d'], p['task'], noise=h.get('noise', 0.1))
                         with quiet():
-                            m.fit(dh['X'], dh['y'], dh['Xv'], dh['yv'])
+                            # an earlier fit may have been called with per-call leaf options: they belong to that call only
+                            m.fit(dh['X'], dh['y'], dh['Xv'], dh['yv'], **h.get('fit_kw', {}))
                         temps.append(m.split_temperature)
                     xc.seed_all(p['seed2'])
                     before, entry = fit_with_entry_capture(m, data)
@@ -324,6 +325,9 @@ def gen_cases(run):
                 [mk(r.choice([60, 90]), 1.5 if tie_prone else 0.1)],                                   # one earlier fit, with splits
                 [mk(r.choice([16, 18]), 0.1), mk(r.choice([70, 110]), 1.5 if tie_prone else 0.3)],     # two: without, then with splits
             ]
+            if k % 3 == 1:
+                for hh in p['histories']:
+                    hh[0]['fit_kw'] = {'center_grads': True}
             cases.append(p)
     return cases
 
